@@ -5,6 +5,7 @@ package genbank
 // C03: GenBank write-then-read is the identity and writing is deterministic.
 //
 // verif:bound C03 structured records: locus name 4 symbolic characters, sequence of 3, 12 or 61 symbolic letters, linear/circular/neither, metadata fields one symbolic word each (DEFINITION optionally ~90 characters long, forcing the writer to wrap), 0..2 references with and without REMARK, the second one sparse (a single optional field present), 0..2 extra keyword blocks, 0..2 features with 0..2 (quick) / 0..3 (thorough; 0..2 in the determinism clause) qualifiers (values 2 symbolic bytes over letters, digits and inner space, the first qualifier of the first feature also over \" / = , ( ); or empty), location cached as text or assembled as a structure, including one-base spans with partial markers, a join of a single operand and a complemented operand below the root; the last word before the DEFINITION wrap point is 2 symbolic printable characters
+// verif:bound C03 determinism (keys): keyword blocks COMMENT / Comment and qualifiers gene / Gene (keys equal up to case) among the maps whose orders are explored
 // verif:bound C03 determinism: every iteration order of the qualifier maps and of the extra-keyword map is explored for two independent writes (exact for maps of <= 3 entries); natively the writes are repeated 50 times
 // verif:bound C03 parser-image clause: Parse(Build(Parse(t))) = Parse(t) for the C01 selftest record
 // verif:bound C03 outside the claim: sequences of 10^5 letters, 40 features, 8 qualifiers, metadata of 2000 characters, Write/Read file wrappers; the 'independent reader' is the layout checks of this harness (column facts), not a second full parser
@@ -235,6 +236,14 @@ func Harness_C03_WriteRead() {
 
 func Harness_C03_Deterministic() {
 	x := c03Record(2) // every iteration order of every map, twice: at most 2 qualifiers per feature in both tiers
+	if _, ok := x.Meta.Other["COMMENT"]; ok && len(x.Meta.Other) == 1 {
+		x.Meta.Other["Comment"] = "spelt differently" // keywords that differ only in case are different keys
+	}
+	if len(x.Features) > 0 && len(x.Features[0].Attributes) == 1 {
+		if _, ok := x.Features[0].Attributes["gene"]; ok {
+			x.Features[0].Attributes["Gene"] = "x"
+		}
+	}
 	vObserveMap(x.Meta.Other)
 	for i := range x.Features {
 		vObserveMap(x.Features[i].Attributes)
